@@ -1,4 +1,5 @@
 import ComposeVerif.Model.Paths
+import ComposeVerif.Model.PathsSymlink
 /-!
 # C12 — statements the tree falsified before the round-2 repairs (concrete witnesses, `by decide`)
 
@@ -72,5 +73,17 @@ theorem compose_failed_drive_dir :
 theorem repaired_tilde_dir :
     absPathStr ⟨['~'], H, fun _ => false, some⟩ ['x'] = ['.', '/', '~', '/', 'x'] ∧
     absPathStr ⟨W, H, fun _ => false, some⟩ ['.', '/', '~', '/', 'x'] = ['/', 'w', '/', '~', '/', 'x'] := by decide
+
+/-! ## `utils.ResolveSymbolicLink` before the repair (first symbolic link only) was not a projection -/
+
+/-- `a → b`, `b/c → d` (both targets physical) -/
+def nestedLinks : Sym.FS := Sym.ofTable [([['a']], some [['b']]), ([['b'], ['c']], some [['d']])]
+
+/-- resolving `a/c/x` gave `b/c/x`; resolving that again gave `d/x` (finding `nonidempotent:develop.watch:nested-symlink`);
+the repaired loop returns `d/x` at once -/
+theorem resolveSymOnce_not_idempotent :
+    Sym.resolveSymOnce nestedLinks [['a'], ['c'], ['x']] = .ok [['b'], ['c'], ['x']] ∧
+    Sym.resolveSymOnce nestedLinks [['b'], ['c'], ['x']] = .ok [['d'], ['x']] ∧
+    Sym.resolveSym nestedLinks [['a'], ['c'], ['x']] = .ok [['d'], ['x']] := by decide
 
 end CV.Paths.Neg
